@@ -66,33 +66,6 @@ var (
 		{Name: "relpersistence", TypID: OidChar, Len: 1},
 		{Name: "relkind", TypID: OidChar, Len: 1},
 	}
-
-	// PostgreSQL 12-15 pg_attribute structure
-	schemaPGAttrV15 = []Column{
-		{Name: "attrelid", TypID: OidOid, Len: 4},
-		{Name: "attname", TypID: OidName, Len: 64},
-		{Name: "atttypid", TypID: OidOid, Len: 4},
-		{Name: "attstattarget", TypID: OidInt4, Len: 4},
-		{Name: "attlen", TypID: OidInt2, Len: 2},
-		{Name: "attnum", TypID: OidInt2, Len: 2},
-		{Name: "atttypmod", TypID: OidInt4, Len: 4},
-		{Name: "attndims", TypID: OidInt2, Len: 2},
-		{Name: "attbyval", TypID: OidBool, Len: 1},
-		{Name: "attalign", TypID: OidChar, Len: 1},
-	}
-
-	// PostgreSQL 16+ pg_attribute structure (attstattarget removed)
-	schemaPGAttrV16 = []Column{
-		{Name: "attrelid", TypID: OidOid, Len: 4},
-		{Name: "attname", TypID: OidName, Len: 64},
-		{Name: "atttypid", TypID: OidOid, Len: 4},
-		{Name: "attlen", TypID: OidInt2, Len: 2},
-		{Name: "attnum", TypID: OidInt2, Len: 2},
-		{Name: "atttypmod", TypID: OidInt4, Len: 4},
-		{Name: "attndims", TypID: OidInt2, Len: 2},
-		{Name: "attbyval", TypID: OidBool, Len: 1},
-		{Name: "attalign", TypID: OidChar, Len: 1},
-	}
 )
 
 // ParsePGDatabase extracts database list from pg_database heap file
@@ -124,10 +97,9 @@ func ParsePGClass(data []byte) map[uint32]TableInfo {
 
 // ParsePGAttribute extracts column info from pg_attribute heap file
 func ParsePGAttribute(data []byte, pgVersion int) map[uint32][]AttrInfo {
-	schema := detectAttrSchema(data, pgVersion)
 	result := make(map[uint32][]AttrInfo)
 
-	for _, row := range ReadRows(data, schema, true) {
+	for _, row := range readAttrRows(data, pgVersion) {
 		relid, num := getOID(row, "attrelid"), toInt(row["attnum"])
 		if relid == 0 || num <= 0 {
 			continue
@@ -157,29 +129,20 @@ func ParsePGAttribute(data []byte, pgVersion int) map[uint32][]AttrInfo {
 	return result
 }
 
-func detectAttrSchema(data []byte, version int) []Column {
-	if version >= 16 {
-		return schemaPGAttrV16
+// readAttrRows reads the live pg_attribute rows through the real layout of the hinted PostgreSQL
+// version (16+, 14-15, 12-13: the three layouts of dropped.go, in each of which attlen, attnum and
+// attalign sit on different bytes); without a hint it takes the layout readAttrRowsWithDropped
+// chooses, which looks at every row and not at which rows happen to come first
+func readAttrRows(data []byte, version int) []map[string]interface{} {
+	switch {
+	case version >= 16:
+		return ReadRows(data, schemaPGAttrDropped, true)
+	case version >= 14:
+		return ReadRows(data, schemaPGAttrDroppedV15, true)
+	case version >= 12:
+		return ReadRows(data, schemaPGAttrDroppedV12, true)
 	}
-	if version >= 12 {
-		return schemaPGAttrV15
-	}
-
-	// Auto-detect by trying V16 schema
-	rows := ReadRows(data, schemaPGAttrV16, true)
-	if len(rows) >= 5 {
-		match := true
-		for i := 0; i < 5; i++ {
-			if toInt(rows[i]["attnum"]) != i+1 {
-				match = false
-				break
-			}
-		}
-		if match {
-			return schemaPGAttrV16
-		}
-	}
-	return schemaPGAttrV15
+	return readAttrRowsWithDropped(data)
 }
 
 func getOID(row map[string]interface{}, key string) uint32 {
